@@ -1088,7 +1088,7 @@ pub fn run(a: &Args, rep: &mut Report) {
     rep.exhaustive.push(format!("all item trees with <= {} nodes over the leaf alphabet x head-width assignments, every target, every strict prefix", max_nodes));
     mon::tick();
     // 2. random trees and shape-directed items
-    let nrand: u64 = if a.thorough() { 3_000_000 } else { 120_000 };
+    let nrand: u64 = if a.thorough() { 6_000_000 } else { 800_000 };
     for i in 0..nrand {
         if !a.mine(i) {
             continue;
